@@ -96,8 +96,13 @@ def st_template15(draw):
     mu, nu = 1.0 + 1.0 / cs2, 1.0 + 1.0 / cb2
     lower = max((1.0 - psi) / 3.0, (mu - nu) / (3.0 * mu), 0.0)
     al = lower + 10.0 ** draw(_f(-3.0, 0.3))
-    return {"family": "template", "Tn": draw(Z.st_tn()), "alN": al, "psiN": psi, "cs2": cs2, "cb2": cb2,
+    spec = {"family": "template", "Tn": draw(Z.st_tn()), "alN": al, "psiN": psi, "cs2": cs2, "cb2": cb2,
             "g": 10.0 ** draw(_f(-1.0, 2.0))}
+    if draw(st.integers(0, 2)) == 0:
+        # the low-T phase is tabulated down to a fraction of Tn only (its own range, not the solver's T- floor
+        # tmin*Tn): the equation of state is still the template form everywhere (template extrapolation is exact)
+        spec["ranges"] = {"high": list(Z.WIDE), "low": [round(draw(_f(0.3, 0.8)), 3), Z.WIDE[1]]}
+    return spec
 
 
 @st.composite
